@@ -1402,4 +1402,5 @@ func TestVerif_C18_Known(t *testing.T) {
 			kit.Violation(t, "C18", "Known", render, "%s", strings.Join(diffs, "\n"))
 		}
 	}
+	vfC18KnownRacing(t, rec)
 }
